@@ -23,7 +23,7 @@ func TestVerif_C33(t *testing.T) {
 	r.Assume("which nodes hold the departed node's snapshot is read from their peer-state stores right after the graceful stop; a loss that follows from the snapshot not being on the leader is reported once per case under its root-cause signature")
 
 	rng := r.Rand(33)
-	n := r.N(64, 640)
+	n := r.N(48, 640)
 
 	var opts []vfcOption
 	for i := 0; i < 400; i++ {
